@@ -164,6 +164,21 @@ def build_inputs(seed, n):
         g = _gmtime(t)
         out.append(('struct_time', time.struct_time(
             tuple(g[:8]) + (rnd.choice([-1, 0, 1]),))))
+        # struct_times that time / calendar accept but datetime() would
+        # not: a leap second (tm_sec 60, 61) as strptime returns it, and
+        # 24:00 / un-normalised fields, which timegm folds over
+        if t >= 86400 + 61 and (t % 7 < 3 or t % 60 < 2):
+            g2 = _gmtime(t - 60)
+            if g2.tm_sec <= 1:
+                out.append(('struct_time-leap-second', time.struct_time(
+                    tuple(g2[:5]) + (g2.tm_sec + 60,) + tuple(g2[6:8]) +
+                    (0,))))
+            g3 = _gmtime(t - 86400)
+            out.append(('struct_time-hour-24+', time.struct_time(
+                tuple(g3[:3]) + (g3.tm_hour + 24,) + tuple(g3[4:8]) + (0,))))
+            g4 = _gmtime(t - 61)
+            out.append(('struct_time-sec-61+', time.struct_time(
+                tuple(g4[:5]) + (g4.tm_sec + 61,) + tuple(g4[6:8]) + (-1,))))
         lt = loc.timetuple()
         out.append(('struct_time-local-fields', time.struct_time(
             tuple(lt[:8]) + (rnd.choice([-1, 0, 1]),))))
@@ -368,7 +383,8 @@ def gates(m, tier):
     for k in ('aware-utc', 'aware-zone', 'aware-fixed', 'naive-local-fields',
               'naive-utc-fields', 'struct_time', 'struct_time-local-fields',
               'naive-gap-or-fold', 'struct_time-from-localtime',
-              'tzinfo-without-offset'):
+              'tzinfo-without-offset', 'struct_time-hour-24+',
+              'struct_time-sec-61+'):
         if k not in m.sets.get('input_kinds', ()):
             out.append('input kind %s never exercised' % k)
     return out
